@@ -13,9 +13,11 @@ func (runInfo *runInfoStruct) invokeLetExpr() {
 
 	// IdentExpr
 	case *ast.IdentExpr:
-		if runInfo.env.SetValue(expr.Lit, runInfo.rv) != nil {
+		// the name is bound to the value read, not to the element or field it was read from
+		value := heldOperand(runInfo.rv)
+		if runInfo.env.SetValue(expr.Lit, value) != nil {
 			runInfo.err = nil
-			runInfo.env.DefineValue(expr.Lit, runInfo.rv)
+			runInfo.env.DefineValue(expr.Lit, value)
 		}
 
 	// MemberExpr
